@@ -67,7 +67,8 @@ struct Body {
 fn body_of(seed: u64, ncomps: usize) -> Body {
     let mut r = Rng::new(seed.wrapping_mul(0x9E37_79B9) ^ 0xC19);
     let code = if r.chance(1, 2) { Some(0x41 + (r.below(0x500) as u32)) } else { None };
-    let nc = r.below(3);
+    // seeds from 999_000 on make a BIG glyph (about 300 kB of glif): a size skew between two glyphs lets a race on one file show
+    let nc = if seed >= 999_000 { 1500 } else { r.below(3) };
     let mut contours = Vec::new();
     for _ in 0..nc {
         let np = 2 + r.below(4);
@@ -422,7 +423,16 @@ pub fn load_dump_save(
                     let h = format!("H{:016x}", tree_hash(out));
                     (d, s, h)
                 }
-                Ok(Err(_)) => (d, "S-save-err".to_string(), "H-".to_string()),
+                Ok(Err(e)) => {
+                    // outcome class of a refused save: the io error kind, if any (must be the same for 1 and N threads)
+                    let t = format!("{:?}", e);
+                    let kind = ["NotFound", "AlreadyExists", "PermissionDenied", "IsADirectory", "NotADirectory"]
+                        .iter()
+                        .find(|k| t.contains(*k))
+                        .copied()
+                        .unwrap_or("other");
+                    (d, format!("S-save-err:{}", kind), "H-".to_string())
+                }
                 Err(_) => (d, "S-save-panic".to_string(), "H-".to_string()),
             }
         }
@@ -706,7 +716,7 @@ pub struct Shape {
     pub ops: usize,
     /// 0 = plain file names; otherwise: all layers hold all names, a glyph has the SAME file name in every layer, and some
     /// `contents.plist` values carry a directory component (`../<other layer>/f`, `./f`, `sub/f`) at the first / middle /
-    /// last position of a layer (which one: `dirs % 3`); `dirs == 6` also uses `sub/` (then the save fails, in both builds)
+    /// last position of a layer (which one: `dirs % 3`); most of them also put the last layer's files into `sub/` (then the save is refused, in both builds)
     pub dirs: u8,
 }
 
@@ -798,7 +808,7 @@ pub fn gen_tree(rng: &mut Rng, sh: &Shape) -> Vec<LayerSpec> {
             } else {
                 format!("g{:05}_.glif", fileno)
             };
-            files.push(FileSpec { key, fname, attr, seed: rng.below(1_000_000) as u64, bad: 0, comps });
+            files.push(FileSpec { key, fname, attr, seed: rng.below(999_000) as u64, bad: 0, comps });
         }
         if sh.bad && !files.is_empty() && (li == sh.layers - 1 || rng.chance(1, 2)) {
             for _ in 0..(1 + rng.below(2)) {
@@ -859,11 +869,13 @@ pub fn gen_tree(rng: &mut Rng, sh: &Shape) -> Vec<LayerSpec> {
                     }
                 }
             }
-            if sh.dirs == 6 && li == nl - 1 && n >= 2 {
-                let p2 = if pos == 0 { n - 1 } else { 0 };
-                let f = &mut layers[li].files[p2];
-                if !f.fname.contains('/') {
-                    f.fname = format!("sub/{}", f.fname);
+            if sh.dirs >= 2 && sh.dirs != 4 && li == nl - 1 && n >= 2 {
+                // (nearly) every glif of the last layer sorted into one sub folder by a hand-edited contents.plist: the
+                // unchanged code refuses such a save (the folder is not created) in both builds, with the same error kind
+                for f in layers[li].files.iter_mut() {
+                    if !f.fname.contains('/') {
+                        f.fname = format!("sub/{}", f.fname);
+                    }
                 }
             }
         }
@@ -908,7 +920,7 @@ pub fn gen_ops(rng: &mut Rng, layers: &[LayerSpec], n: usize) -> String {
         if name.is_empty() {
             continue;
         }
-        let seed = rng.below(1_000_000);
+        let seed = rng.below(999_000);
         // the first operation of every history is an `entry` insertion of a name that sorts early
         let kind = if i == 0 { 3 } else { rng.below(6) };
         let op = match kind {
@@ -937,6 +949,22 @@ pub fn gen_ops(rng: &mut Rng, layers: &[LayerSpec], n: usize) -> String {
         };
         used.push((li, name));
         ops.push(op);
+    }
+    // names that get the SAME file name unless the clash check works (illegal characters become `_`, capitals get a `_`),
+    // non-ASCII capitals included; the first in name order is BIG, so that a parallel save racing two workers on one file would show
+    let clash = [("É*", "É_"), ("Ä?", "Ä_"), ("A*", "A_"), ("Öx|", "Öx_"), ("é*", "é_")];
+    if n >= 2 && rng.chance(1, 2) {
+        let li = layers.iter().position(|l| l.dir == "glyphs").unwrap_or(0);
+        let (a, b) = *rng.pick(&clash);
+        let big = format!("ig.{}.{}.{}", li, hexs(a), 999_000 + rng.below(1000));
+        let small = format!("ig.{}.{}.{}", li, hexs(b), rng.below(900_000));
+        if rng.chance(1, 2) {
+            ops.push(big);
+            ops.push(small);
+        } else {
+            ops.push(small);
+            ops.push(big);
+        }
     }
     format!("O:{}", ops.join(";"))
 }
@@ -968,7 +996,7 @@ pub fn gen_prelude(rng: &mut Rng, main: &[LayerSpec], extra: &[String]) -> Vec<L
             key: k.clone(),
             fname: format!("p{:04}_.glif", i),
             attr: k.clone(),
-            seed: rng.below(1_000_000) as u64,
+            seed: rng.below(999_000) as u64,
             bad: 0,
             comps: (0..rng.below(3)).filter_map(|_| if main_keys.is_empty() { None } else { Some((*rng.pick(&main_keys)).clone()) }).collect(),
         })
